@@ -14,12 +14,14 @@ Record Ops (F : Type) := mkOps {
   fofZ : Z -> F;
   fltb : F -> F -> bool; fleb : F -> F -> bool; feqb : F -> F -> bool;
   fsqrt : F -> F;
+  fnonfinite : F -> bool;          (* isnan(x) or isinf(x) *)
+  frne : F -> option Z;            (* round half to even to an integer; None for NaN / inf *)
   (* library calls (oracles) *)
   flog : F -> F; fpow10 : F -> F; fcos : F -> F
 }.
 Arguments f0 {F} _. Arguments f1 {F} _. Arguments fadd {F} _. Arguments fsub {F} _. Arguments fmul {F} _.
 Arguments fdiv {F} _. Arguments fopp {F} _. Arguments fabs {F} _. Arguments fofZ {F} _. Arguments fltb {F} _.
-Arguments fleb {F} _. Arguments feqb {F} _. Arguments fsqrt {F} _. Arguments flog {F} _. Arguments fpow10 {F} _.
+Arguments fleb {F} _. Arguments feqb {F} _. Arguments fsqrt {F} _. Arguments fnonfinite {F} _. Arguments frne {F} _. Arguments flog {F} _. Arguments fpow10 {F} _.
 Arguments fcos {F} _.
 
 (** ** reals *)
@@ -27,9 +29,16 @@ Definition Rltb (x y : R) : bool := if Rlt_dec x y then true else false.
 Definition Rleb (x y : R) : bool := if Rle_dec x y then true else false.
 Definition Reqb (x y : R) : bool := if Req_EM_T x y then true else false.
 
+(** round half to even on the reals *)
+Definition rneR (x : R) : Z :=
+  let f := Int_part x in
+  let r := (x - IZR f)%R in
+  if Rlt_dec r (1 / 2) then f else if Rlt_dec (1 / 2) r then (f + 1)%Z else if Z.even f then f else (f + 1)%Z.
+
 Definition OpsR : Ops R := {|
   f0 := 0%R; f1 := 1%R; fadd := Rplus; fsub := Rminus; fmul := Rmult; fdiv := Rdiv; fopp := Ropp; fabs := Rbasic_fun.Rabs;
   fofZ := IZR; fltb := Rltb; fleb := Rleb; feqb := Reqb; fsqrt := R_sqrt.sqrt;
+  fnonfinite := fun _ => false; frne := fun x => Some (rneR x);
   flog := ln; fpow10 := fun x => exp (x * ln 10)%R; fcos := Rtrigo_def.cos |}.
 
 (** ** binary64 *)
@@ -48,4 +57,5 @@ Definition OpsF (o : oracles) : Ops float := {|
   f0 := zero; f1 := one; fadd := PrimFloat.add; fsub := PrimFloat.sub; fmul := PrimFloat.mul; fdiv := PrimFloat.div;
   fopp := PrimFloat.opp; fabs := PrimFloat.abs; fofZ := f_of_Z;
   fltb := PrimFloat.ltb; fleb := PrimFloat.leb; feqb := PrimFloat.eqb; fsqrt := PrimFloat.sqrt;
+  fnonfinite := fun x => is_nan x || is_infinity x; frne := f_rne;
   flog := lookup (t_log o); fpow10 := lookup (t_pow10 o); fcos := lookup (t_cos o) |}.
